@@ -32,6 +32,9 @@ extern int verif_failed;
 #define __CPROVER_rw_ok(p, n) 1
 #define __CPROVER_r_ok(p, n) 1
 #define __CPROVER_w_ok(p, n) 1
+#define __CPROVER_OBJECT_SIZE(p) ((size_t)-1)
+#define __CPROVER_POINTER_OFFSET(p) ((size_t)0)
+#define __CPROVER_DYNAMIC_OBJECT(p) 1
 #define VASSUME(c)                                                             \
     do {                                                                       \
         if (!(c)) {                                                            \
@@ -136,7 +139,24 @@ static inline float nd_float(void)
 #define RET RET
 #define X_TAG(t, c) @@ENS t
 #define DFCC_CONTRACT(fn) @@BEGIN fn CONTRACT_##fn(X_SKIP1, X_TAG, X_SKIPV, X_SKIPV) @@END
+#define DFCC_CONTRACT_AS(fn, c) @@BEGIN fn CONTRACT_##c(X_SKIP1, X_TAG, X_SKIPV, X_SKIPV) @@END
 #define H_CALL(fn, stmt)
+#elif defined(VERIF_INLINE_CONTRACT)
+/* The contract of the function under test is checked around the call by plain
+ * assume/assert instead of DFCC instrumentation (no assigns/frees checking): used where
+ * the DFCC write-set instrumentation makes a unit too large. Tags travel in the assertion
+ * text. */
+#define RET ret
+#define X_IREQ(c) __CPROVER_assume(c);
+#define X_IENS(t, c) __CPROVER_assert((c), t);
+#define DFCC_CONTRACT(fn)
+#define DFCC_CONTRACT_AS(fn, c)
+#define H_CALL(fn, stmt)                                  \
+    do {                                                  \
+        CONTRACT_##fn(X_IREQ, X_SKIP2, X_SKIPV, X_SKIPV)  \
+        stmt;                                             \
+        CONTRACT_##fn(X_SKIP1, X_IENS, X_SKIPV, X_SKIPV)  \
+    } while (0)
 #else
 #define RET __CPROVER_return_value
 #define X_REQ(c) __CPROVER_requires(c)
@@ -144,6 +164,8 @@ static inline float nd_float(void)
 #define X_ASG(...) __CPROVER_assigns(__VA_ARGS__)
 #define X_FRE(...) __CPROVER_frees(__VA_ARGS__)
 #define DFCC_CONTRACT(fn) CONTRACT_##fn(X_REQ, X_ENS, X_ASG, X_FRE)
+/* attach the contract of `c` to another function (a stub that must satisfy it) */
+#define DFCC_CONTRACT_AS(fn, c) CONTRACT_##c(X_REQ, X_ENS, X_ASG, X_FRE)
 #define H_CALL(fn, stmt)                                  \
     do {                                                  \
         stmt;                                             \
